@@ -15,6 +15,10 @@
 (*   Part = "pair": the external-in cases ("msg" vectors, one per case) and    *)
 (*          unordered pairs of them by index; Mode = "near": the two cases     *)
 (*          differ in exactly one coordinate; Mode = "all": all pairs          *)
+(*   Part = "exotic": messages whose body / init holds exotic subtrees (Merkle *)
+(*          proof over a partly pruned tree, Merkle update, library cell,      *)
+(*          pruned branch; by reference and nested deeper), and a transaction  *)
+(*          around each, written out as bags of cells by Boc!Write             *)
 EXTENDS MsgHash, Json
 CONSTANTS Part, Mode
 VARIABLE c
@@ -69,9 +73,49 @@ PairCases(i) == {j \in (i + 1)..Len(E) : Mode = "all" \/ Dist(E[i], E[j]) = 1}
 PairOut(i, j) == [k |-> "pair", i |-> i, j |-> j, exp |-> CaseRelation(E[i], E[j])]
 MsgOut(i)    == [k |-> "msg", id |-> i, c |-> E[i], cells |-> CellsOf(E[i])]
 
-Groups   == IF Part = "case" THEN CaseGroups ELSE PairGroups
-Cases(g) == IF Part = "case" THEN CaseCases(g) ELSE PairCases(g)
-Out(g, x) == IF Part = "case" THEN CaseOut(g, x) ELSE PairOut(g, x)
+\* ---- part "exotic": messages (and transactions around them) that hold exotic subtrees, handed over as bags of cells
+\* written by Boc!Write -- the implementation's serialiser has no part in producing its own input
+XT == NodeOf(S.bodies[3])                                  \* a multi-cell tree X
+YT == NodeOf(S.bodies[2])
+V1 == [b |-> StrToBits(S.flags), c |-> <<PrunedNode(XT), YT>>]                               \* X pruned right below the root
+V2 == [b |-> StrToBits(S.lt), c |-> <<YT, [b |-> StrToBits(S.at), c |-> <<PrunedNode(XT)>>]>>]   \* ... and deeper
+P1 == ProofNode(V1)
+P2 == ProofNode(V2)
+U1 == UpdateNode(V1, V2)
+L1 == LibraryNode(StrToBits(S.std[1].addr))
+Ord(bits, kids) == [b |-> bits, c |-> kids]
+ExoticBodies ==
+  << [name |-> "proof-as-body",             kind |-> "int",     body |-> "ref",    bd |-> P1],
+     [name |-> "x-and-proof-of-pruned-x",   kind |-> "ext_in",  body |-> "ref",    bd |-> Ord(StrToBits(S.at), <<XT, P1>>)],
+     [name |-> "x-and-proof-inline-body",   kind |-> "ext_in",  body |-> "inline", bd |-> Ord(StrToBits(S.flags), <<XT, P1>>)],
+     [name |-> "proof-nested-deeper",       kind |-> "ext_in",  body |-> "ref",    bd |-> Ord(<<1>>, <<Ord(<<0, 1>>, <<YT, Ord(<<>>, <<P2>>)>>)>>)],
+     [name |-> "update-as-body",            kind |-> "int",     body |-> "ref",    bd |-> U1],
+     [name |-> "update-nested",             kind |-> "ext_out", body |-> "ref",    bd |-> Ord(<<1, 1>>, <<U1, XT>>)],
+     [name |-> "library-nested",            kind |-> "ext_in",  body |-> "ref",    bd |-> Ord(<<1, 0, 1>>, <<L1, Ord(<<0>>, <<L1>>)>>)],
+     [name |-> "pruned-branch-in-body",     kind |-> "int",     body |-> "ref",    bd |-> Ord(<<0, 0>>, <<PrunedNode(XT), XT>>)],
+     [name |-> "proof-as-init-code",        kind |-> "int",     body |-> "inline", bd |-> Ord(<<>>, <<>>)] >>
+ExoticCase(k) == LET sh == IF k = "ext_in" THEN ShapeOf(k, "none", "ref", "none", "std", FALSE, "zero")
+                           ELSE IF k = "int" THEN ShapeOf(k, "none", "ref", "std", "std", FALSE, "nonzero")
+                           ELSE ShapeOf(k, "none", "ref", "var", "extern", FALSE, "zero")
+                 IN WithIds(sh, 0, 0)
+ExoticMsg(x) ==
+  LET D0 == Describe(ExoticCase(x.kind))
+      D  == IF x.name = "proof-as-init-code"
+              THEN [D0 EXCEPT !.init = "ref", !.si = Ord(<<0, 0, 1, 0, 0>>, <<P1>>), !.body = x.body, !.bd = x.bd]
+              ELSE [D0 EXCEPT !.body = x.body, !.bd = x.bd]
+  IN EncMsg(D)
+PlainBag == [magic |-> "generic", idx |-> FALSE, crc |-> FALSE, cache |-> FALSE, size |-> 1, ob |-> 2, hashes |-> FALSE]
+BagOf(node) == BytesToHex(Write(WithMasks(Flat(node)), <<1>>, PlainBag))
+ExoticTx(x) == TxNode(StrToBits(S.std[2].addr), StrToBits(S.lt), StrToBits(S.std[3].addr), StrToBits(S.at), ExoticMsg(x))
+ExoticGroups   == 1..Len(ExoticBodies)
+ExoticCases(g) == {"msg", "tx"}
+ExoticOut(g, w) == LET x == ExoticBodies[g] IN
+  IF w = "msg" THEN [k |-> "xmsg", name |-> x.name, kind |-> x.kind, boc |-> BagOf(ExoticMsg(x))]
+  ELSE [k |-> "xtx", name |-> x.name, kind |-> x.kind, boc |-> BagOf(ExoticTx(x))]
+
+Groups   == CASE Part = "case" -> CaseGroups [] Part = "pair" -> PairGroups [] OTHER -> ExoticGroups
+Cases(g) == CASE Part = "case" -> CaseCases(g) [] Part = "pair" -> PairCases(g) [] OTHER -> ExoticCases(g)
+Out(g, x) == CASE Part = "case" -> CaseOut(g, x) [] Part = "pair" -> PairOut(g, x) [] OTHER -> ExoticOut(g, x)
 
 Init == c \in {<<0, g, 0>> : g \in Groups}
 Next == c[1] = 0 /\ c' \in {<<1, c[2], x>> : x \in Cases(c[2])}
@@ -90,6 +134,12 @@ ReadsBack(cs) ==
 Coherent ==
   /\ (c[1] = 1 /\ Part = "case") => ReadsBack(c[3])
   /\ (c[1] = 0 /\ Part = "pair") => ReadsBack(E[c[2]])
+  \* what the specification hands out as a bag is a well-formed DAG that its own parser reads back to the same root hash
+  /\ (c[1] = 1 /\ Part = "exotic") =>
+       LET n == IF c[3] = "msg" THEN ExoticMsg(ExoticBodies[c[2]]) ELSE ExoticTx(ExoticBodies[c[2]])
+           T == WithMasks(Flat(n))
+           P == Parse(HexToBytes(BagOf(n)))
+       IN WellFormed(T) /\ P.ok /\ RootHashes(P) = <<ReprHash(InfoTable(T)[1])>> /\ MsgParse(WithMasks(Flat(ExoticMsg(ExoticBodies[c[2]]))), 1).ok
   /\ (c[1] = 1 /\ Part = "pair") =>
        LET a == E[c[2]]  b == E[c[3]]  Ta == TableOf(a)  Tb == TableOf(b) IN
        /\ CaseRelation(a, b) = CaseRelation(b, a)
